@@ -55,10 +55,11 @@ PROPERTY = "C03"
 
 # the fourth time step is a sampling rate of 100.4 Hz: it rounds to the same whole rate as 0.01 s, gives the same
 # sample counts and FFT lengths, and a frequency axis that is 0.4 % off
-DTS = [0.01, 0.02, 0.05, 1 / 100.4]
-MEMBERS = 4                          # pool index p = 16 * (index of scale) + 4 * (index of dt) + member
-BASE_POOL = len(DTS) * MEMBERS       # 16
-SCALES = [1.0, 1e9, 1e-9]            # amplitude factor of pool member p: SCALES[p // 16]
+# the fifth is 5 ppm below 0.01 s: a tolerance-based comparison of time steps (np.isclose) would merge the two
+DTS = [0.01, 0.02, 0.05, 1 / 100.4, 0.00999995]
+MEMBERS = 4                          # pool index p = BASE_POOL * (index of scale) + 4 * (index of dt) + member
+BASE_POOL = len(DTS) * MEMBERS       # 20
+SCALES = [1.0, 1e9, 1e-9]            # amplitude factor of pool member p: SCALES[p // BASE_POOL]
 L_NOPAD = 64
 L_VARIED = [64, 48, 33, 57]          # length of pool member p in the padded families: [(d + m) % 4]
 POLICIES = list(RP.POLICIES)
@@ -127,7 +128,7 @@ def pool_len(p, varied):
 
 def pristine(p, varied):
     """(ns, ew, vt) of pool member p: broadband, pairwise different, never modified.
-    p >= 16: the arrays of member p % 16 multiplied by SCALES[p // 16]."""
+    p >= BASE_POOL: the arrays of member p % BASE_POOL multiplied by SCALES[p // BASE_POOL]."""
     key = (p, varied)
     if key not in _PRISTINE and p >= BASE_POOL:
         c = pool_scale(p)
@@ -276,8 +277,8 @@ def judge(ctx, root, family, kind, policy, fcsname, ids, res, variant=""):
                   variant=variant or "fresh-objects",
                   lengths=[pool_len(p, FAMILIES[family]["varied"]) for p in ids],
                   fft_settings=repr(FAMILIES[family]["fft"]()), smoothing=list(FAMILIES[family]["smoothing"]),
-                  how="recordings = hvmc.checks.c03.build_list(pool_indices, varied=%r) (member p %% 16 of the "
-                      "pool times amplitude scale SCALES[p // 16]); settings = "
+                  how="recordings = hvmc.checks.c03.build_list(pool_indices, varied=%r) (member p %% BASE_POOL (20) of the "
+                      "pool times amplitude scale SCALES[p // BASE_POOL]); settings = "
                       "family_settings(family, kind, policy, fcs name)" % FAMILIES[family]["varied"])
     cands = RP.retained_candidates(dts, policy)
     decisions = [RP.nyquist_decision([dts[i] for i in c], fcs) for c in cands]
@@ -520,6 +521,9 @@ def plan(tier):
         # two sampling rates that round to the same whole number (100 and 100.4 Hz), equal sample counts
         nearrate=dict(family="nopad", kinds=TD3 if q else list(KINDS), pool=_pool([0, 3], [0, 1]), fcs=["low"],
                       groups=[[1, 2, 3]]),
+        # two time steps 5 ppm apart: different floats, hence different groups, axes and 'smallest'
+        closerate=dict(family="nopad", kinds=TD3 if q else list(KINDS), pool=_pool([0, 4], [0, 1]), fcs=["low"],
+                       groups=[[1, 2, 3]]),
         nearrate_dflt=dict(family="default", kinds=["geometric_mean"] if q else TD3, pool=_pool([0, 3], [0]),
                            fcs=["low"], groups=[[1, 2, 3]]),
         dflt=dict(family="default", kinds=TD3 if q else list(KINDS), pool=_pool([0, 2] if q else [0, 1, 2], [0, 1]),
@@ -843,5 +847,5 @@ _describe_base = describe
 
 def describe(tier):     # noqa: F811 - the base description plus what later rounds added to the space
     d = _describe_base(tier)
-    d["rule"] = d["rule"] + " " + 'The pool holds a fourth time step, 1/100.4 s (blocks nearrate / nearrate_dflt: lists over members at 0.01 s and 1/100.4 s).'
+    d["rule"] = d["rule"] + " " + 'The pool holds a fourth time step, 1/100.4 s (blocks nearrate / nearrate_dflt: lists over members at 0.01 s and 1/100.4 s).' + " Round 6: a fifth time step 5 ppm below 0.01 s (block closerate): time steps are distinguished as floats, never by tolerance."
     return d
